@@ -2,6 +2,7 @@ SPECIFICATION Spec
 CONSTANTS
   AB_PiDenominator = TRUE
   EstimatorNs = {3}
+  BigShapes <- MCBigNone
   PopStructs <- MCPops
   MaxSitesFor <- MCMax
 INVARIANTS
